@@ -21,5 +21,7 @@ def run(ctx):
     failures += progflow.judge(ctx, progflow.generate(ctx, "slices", n), "gen")
     failures += corpus.judge(ctx, "C03")
     failures += comprun.judge(ctx, True)
+    # beyond the small scope: sizes that cross the one-digit / two-digit boundary of names, counters and indices (spec/FamScale.tla)
+    failures += progflow.judge(ctx, progflow.scale_cases(ctx, "C03"), "scale")
     progflow.report(ctx, failures)
     return ctx.finish(rule=RULE, assumptions=ASSUME)
